@@ -398,6 +398,12 @@ def conversation(run, pv, rng, length, threshold, abrupt, label,
             conn.disconnect(immediate=True)
         except Exception:
             pass
+        # the object stays alive (an application keeps its Connection): what
+        # its ended session still holds is counted at the end of the run
+        KEPT.append(conn)
+
+
+KEPT = []
 
 
 def reset_mid_batch(run, pv, rng, idx):
@@ -555,6 +561,90 @@ def client_leaves_mid_write(run, pv, rng, idx):
             pc.safe_disconnect(conn)
 
 
+def flood_fairness(run, pv, rng, idx):
+    """Bounded progress under sustained inbound traffic: the server sends one
+    keep-alive and then frames without pause (small socket buffers, so that its
+    sending is paced by the client's reading); the answer must arrive before
+    the server has sent FLOOD_MAX further frames - a logical bound, far beyond
+    the client's read batch of 50 plus everything that fits into the buffers."""
+    import socket as _socket
+    codec = codec_for(pv)
+    FLOOD_MAX = 12000
+    kind = ('unknown', 'time', 'mixed')[idx % 3]
+    state = {'sent': 0, 'answered_after': None}
+
+    def handler(io):
+        if scripts.read_handshake(io) is None:
+            return
+        scripts.login_offline(io, pv, None, codec)
+        io.sock.setsockopt(_socket.SOL_SOCKET, _socket.SO_SNDBUF, 32768)
+        io.send_frame(*codec.encode('cb_keep_alive', {'id': 4711}))
+        filler = [io.encode_frame(0x7E, b'u' * 200)]
+        if kind != 'unknown':
+            filler.append(io.encode_frame(*codec.encode('time_update', {
+                'world_age': 1, 'time_of_day': 2})) * 8)
+        chunk = b''.join(filler[i % len(filler)] for i in range(40))
+        per_chunk = 40 if kind == 'unknown' else (
+            40 * 8 if kind == 'time' else 20 + 20 * 8)
+        if kind == 'time':
+            chunk = filler[1] * 40
+        while state['sent'] < FLOOD_MAX:
+            try:
+                io.send_raw(chunk)
+            except OSError:
+                break
+            state['sent'] += per_chunk
+            try:
+                fr = io.recv_frame(0.0005)
+            except mcserver.ScriptTimeout:
+                continue
+            if fr is None:
+                break
+            nm, vals = codec.decode('play', fr[0], fr[1])
+            if nm == 'sb_keep_alive' and vals['id'] == 4711:
+                state['answered_after'] = state['sent']
+                break
+        did, dp = codec.encode('play_disconnect', {'reason': '"end"'})
+        try:
+            io.send_frame(did, dp)
+            io.half_close()
+            io.drain(8.0)
+        except OSError:
+            pass
+    server = mcserver.Server(handler)
+    rec = pc.Recorder()
+    conn = None
+    w = {'pv': pv, 'directed': 'flood-fairness', 'flood': kind,
+         'bound_frames': FLOOD_MAX}
+    try:
+        conn = pc.make_connection(server.port, rec, allowed_versions={pv},
+                                  early_listener=False)
+        conn.vf_rcvbuf = 32768
+        conn.connect()
+        if not pc.wait_idle(conn, 60.0):
+            return 'inconclusive', 'threads alive: ' + pc.dump_threads()
+        server.join(15.0)
+        if [e for e in server.errors if e[1] == 'script']:
+            return 'inconclusive', 'server script: %r' % (server.errors[:1],)
+        run.count('directed.flood_fairness')
+        w['frames_sent_before_answer'] = state['answered_after']
+        if state['answered_after'] is None:
+            run.violation('play/answers-starved-by-inbound-traffic', 'a '
+                          'keep-alive went unanswered while the server sent '
+                          '%d further frames without pause (queued answers '
+                          'must be written between read batches)'
+                          % state['sent'], dict(w, sent=state['sent']))
+        else:
+            run.seen('flood.answered_within', min(
+                b for b in (100, 500, 2000, 12000)
+                if state['answered_after'] <= b))
+        return 'done', w
+    finally:
+        server.stop()
+        if conn is not None:
+            pc.safe_disconnect(conn)
+
+
 def run(run):
     import minecraft
     thorough = run.tier == 'thorough'
@@ -578,6 +668,10 @@ def run(run):
         'echo is observable', 'protocols 4/5 (1.7.x) are outside the README\'s'
         ' supported range and are not driven']
     rng = run.rng('c11')
+    import gc
+    import os
+    gc.collect()
+    fds0 = len(os.listdir('/proc/self/fd'))
     plan = []
     for pv in versions:
         for k in range(8 if thorough else 1):
@@ -643,6 +737,30 @@ def run(run):
         run.case(('client-leaves', i))
         if outcome != 'done':
             run.inconclusive_because('client-leaves %d: %s' % (i, info))
+    for i in range(18 if thorough else 3):
+        if not run.mine(i):
+            continue
+        pv = rng.choice((47, 340, 757))
+        for attempt in range(2):
+            outcome, info = flood_fairness(run, pv, rng, i)
+            if outcome == 'done':
+                break
+        run.case(('flood', i))
+        if outcome != 'done':
+            run.inconclusive_because('flood %d: %s' % (i, info))
+    # ---- what ended sessions still hold -------------------------------------
+    gc.collect()
+    time.sleep(0.1)
+    fds1 = len(os.listdir('/proc/self/fd'))
+    run.extra['descriptors_before_after'] = (fds0, fds1, len(KEPT))
+    run.count('ended_sessions_kept_alive', len(KEPT))
+    if fds1 - fds0 > 1:
+        run.violation('play/descriptors-left-open', 'Connection objects whose '
+                      'sessions have ended (server disconnect, also followed '
+                      'by a close or reset) still hold open descriptors',
+                      {'descriptors_before': fds0, 'after': fds1,
+                       'connection_objects_alive': len(KEPT)})
+    run.require('directed.flood_fairness', 2)
     run.require('directed.client_leaves_mid_write', 2)
     run.require('directed.reset_mid_batch', 2)
     run.require('frames_of_exactly_threshold_size', 20)
